@@ -742,6 +742,7 @@ pub fn run(which: Which, tier: &str, seed: u64, out: &str) {
                 .set("node_cap_per_start_state", tq.4)
                 .set("members_of_classes_F1_F4_thorough_F3_with_something_to_examine_used_as_starts", CLASS_STARTS.load(std::sync::atomic::Ordering::Relaxed))
                 .set("long_forcing_lines", J::obj().set("starts_within_two_plies_of_the_middlegame_roots", DEEP_STARTS.load(std::sync::atomic::Ordering::Relaxed)).set("deepest_nesting_of_quiescence_nodes_reached_plies", DEEPEST_QPLY.load(std::sync::atomic::Ordering::Relaxed)).set("children_that_returned_without_an_event_and_had_nothing_to_examine", SILENT_EMPTY.load(std::sync::atomic::Ordering::Relaxed)).set("rule", "every child a node searched must itself show up as a node (choose a move list, or leave by one of the marked exits) unless the clock had expired or the searcher had expanded that position before; a child with something to examine that returns without any of this examined nothing"))
+                .set("nodes_judged_late_in_a_budget_that_is_just_enough", TIGHT_JUDGED.load(std::sync::atomic::Ordering::Relaxed))
                 .set("nodes_whose_searched_moves_were_judged", EXAMINED_NODES.load(std::sync::atomic::Ordering::Relaxed))
                 .set("quiescence_searches_traced_after_a_main_search_of_the_same_state", AFTER_SEARCH.load(std::sync::atomic::Ordering::Relaxed))
                 .set("quiescence_searches_traced_with_a_game_history_in_which_every_successor_occurred_twice", WITH_HISTORY.load(std::sync::atomic::Ordering::Relaxed))
@@ -1225,6 +1226,15 @@ fn trace_part(mg: &MoveGenerator, rep: &Report, roots: &[roots::Root], thorough:
                 }
             }
             }
+            if phases > 1 && !rep.saturated() {
+                // the same search once more with a budget that is just enough
+                *s = Some(Searcher::new());
+                let (judged, problem) = tight_budget_problem(s.as_mut().unwrap(), b, cap);
+                TIGHT_JUDGED.fetch_add(judged, Ordering::Relaxed);
+                if let Some((_, node, text)) = problem {
+                    rep.violation(format!("C17 start={} tight-budget node={}", eng::fen_of(b), node), text, vec!["c17-tight-one".to_string(), "--fen".into(), eng::fen_of(b), "--cap".into(), cap.to_string()], J::Null);
+                }
+            }
             if phases > 1 {
                 *s = None;
             }
@@ -1342,6 +1352,78 @@ pub static DEEP_STARTS: std::sync::atomic::AtomicU64 = std::sync::atomic::Atomic
 pub static DEEPEST_QPLY: std::sync::atomic::AtomicU64 = std::sync::atomic::AtomicU64::new(0);
 /// Children that returned without any event and had nothing to examine / something to examine
 pub static SILENT_EMPTY: std::sync::atomic::AtomicU64 = std::sync::atomic::AtomicU64::new(0);
+
+/// A budget that is just enough: the quiescence search from `b` runs once without a clock that
+/// matters (T nodes), then again with a budget of T + 1 nodes of the node clock, so that its last
+/// nodes are visited "late in the budget" although the clock never expires. The lists chosen at
+/// the nodes of the last fifth of that second search are judged like any other (nothing in the
+/// property depends on how much of a budget is left). Returns (nodes judged, first problem).
+pub fn tight_budget_problem(s: &mut crate::search::Searcher, b: &Board, cap: u64) -> (u64, Option<(u64, String, String)>) {
+    crate::timer::verif::set_node_clock(Some(1));
+    let t = match guard(|| {
+        s.verif_quiesce(b, Some(std::time::Duration::from_millis(cap)));
+        (s.verif_nodes(), crate::timer::verif::first_stop().is_some())
+    }) {
+        Ok((n, false)) if n >= 16 => n,
+        _ => return (0, None),
+    };
+    let budget = t + 1;
+    crate::search::verif::set_quiescence_trace(true);
+    let r = guard(|| s.verif_quiesce(b, Some(std::time::Duration::from_millis(budget))));
+    let trace = crate::search::verif::take_quiescence_trace();
+    let _ = crate::search::verif::take_quiescence_events();
+    crate::search::verif::set_quiescence_trace(false);
+    if r.is_err() || crate::timer::verif::first_stop().is_some() {
+        return (0, None);
+    }
+    let from = trace.len() * 4 / 5;
+    let mut judged = 0u64;
+    for (tb, flag, list) in trace.iter().skip(from) {
+        let p = match eng::pos_of(tb) {
+            Ok(p) => p,
+            Err(_) => continue,
+        };
+        let in_check = p.in_check(p.stm);
+        let mut want = if in_check { p.legal_moves() } else { p.tactical_moves() };
+        want.sort();
+        let mut got: Vec<Mv> = list.iter().map(eng::mv_of).collect();
+        got.sort();
+        judged += 1;
+        if *flag != in_check || got != want {
+            let missing: Vec<Mv> = want.iter().filter(|m| !got.contains(m)).cloned().collect();
+            let extra: Vec<Mv> = got.iter().filter(|m| !want.contains(m)).cloned().collect();
+            return (
+                judged,
+                Some((
+                    budget,
+                    p.fen4(),
+                    format!(
+                        "quiescence search from {:?} with a budget of {} nodes (it needs {}; the clock never expires): late in the budget the node {:?} ({}) examines [{}]: missing [{}] extra [{}]",
+                        eng::fen_of(b), budget, t, p.fen4(), if in_check { "in check" } else { "not in check" }, eng::moves_text(&got), eng::moves_text(&missing), eng::moves_text(&extra)
+                    ),
+                )),
+            );
+        }
+    }
+    (judged, None)
+}
+
+pub static TIGHT_JUDGED: std::sync::atomic::AtomicU64 = std::sync::atomic::AtomicU64::new(0);
+
+pub fn replay_tight_one(fen: &str, cap: u64) -> i32 {
+    let b = eng::board_of_fen(fen).unwrap();
+    let mut s = crate::search::Searcher::new();
+    match tight_budget_problem(&mut s, &b, cap) {
+        (_, Some((_, node, _))) => {
+            println!("REPLAY-VIOLATION C17 start={} tight-budget node={} :: a node visited late in a budget that is just enough examines another set of moves", fen, node);
+            1
+        }
+        _ => {
+            println!("REPLAY-OK C17 tight budget {}", fen);
+            0
+        }
+    }
+}
 
 /// Members of complete material classes used as quiescence trace starts
 pub static CLASS_STARTS: std::sync::atomic::AtomicU64 = std::sync::atomic::AtomicU64::new(0);
